@@ -31,6 +31,8 @@ def gen_tree(r, sid):
                 pend.append(nid)
             return [nid, key, st, False, []]
         if r.random() < 0.3:
+            if r.random() < 0.25:
+                return [nid, key, "GotRedirected", False, []]      # the redirect target was dropped by the preprocessor (excluded / invalid / duplicate)
             kid = node(depth + 1, False)
             return [nid, key, "GotRedirected", False, [kid]]
         kids = [node(depth + 1, False) for _ in range(r.randrange(1, 4))]
@@ -71,10 +73,25 @@ def stage_level(ctx, n):
             seeds.append(s)
             leftover[sid] = left
         held = sum(1 for v in leftover.values() if v)
+        # a stop request (reactor.Freeze) while seeds are on their way: before any reaches the finisher, or - one seed alone - at a later pass
+        freeze = None
+        if r.random() < 0.25:
+            if r.random() < 0.5:
+                freeze = 0
+            else:
+                seeds = seeds[:1]
+                freeze = r.randrange(0, len(seeds[0]["updates"]) + 1)
+            for s in seeds:
+                nup = len(s["updates"])
+                # with the reactor frozen at pass k a seed that is not complete at that pass stays tracked and unfinished
+                leftover[s["tree"][0]] = "frozen"
         # seeds the scenario leaves unfinished keep their token: give the reactor enough of them for the others to get in
-        lines.append(json.dumps({"op": "start", "workers": w, "tokens": held + r.choice([1, 2, w])}))
+        lines.append(json.dumps({"op": "start", "workers": w, "tokens": len(seeds) + r.choice([0, 1, w])}))     # token starvation is C12's subject: every seed of the batch gets in
         meta.append(None)
-        lines.append(json.dumps({"op": "seeds", "seeds": seeds, "waitMs": 400 if held else 4000}))
+        op = {"op": "seeds", "seeds": seeds, "waitMs": 400 if (held or freeze is not None) else 4000}
+        if freeze is not None:
+            op["freezeAtPass"] = freeze
+        lines.append(json.dumps(op))
         meta.append((seeds, leftover))
     lines.append(json.dumps({"op": "close"})); meta.append(None)
     impl, model = ctx.pair("pipeline", lines, timeout=1800)
@@ -91,7 +108,8 @@ def stage_level(ctx, n):
             f = dict(p.split("=") for p in row.split(" ")[1:5]) if row else {}
             ctx.case(json.dumps(s), len(s["updates"]) >= 1)
             ctx.count("exit:" + ("ack" if f.get("acks") == "1" else "produced" if f.get("produced") == "1" else "held"))
-            rp = {"domain": "pipeline", "ops": [json.loads(lines[0]) if False else {"op": "start", "workers": 2}, {"op": "seeds", "seeds": [s]}]}
+            fz = json.loads(l).get("freezeAtPass")
+            rp = {"domain": "pipeline", "ops": [{"op": "start", "workers": 2, "tokens": 4}, dict({"op": "seeds", "seeds": [s]}, **({"freezeAtPass": fz} if fz is not None else {}))]}
             if not row:
                 raise RuntimeError("pipeline harness: no row for %s in %r" % (sid, a[:300]))
             acks, produced, tracked = int(f["acks"]), int(f["produced"]), f["tracked"] == "true"
@@ -104,7 +122,7 @@ def stage_level(ctx, n):
                 ctx.violation("seed %s was dropped: neither reported back nor tracked by the reactor" % sid, rp)
             elif acks + produced == 1 and tracked:
                 ctx.violation("seed %s was reported back but is still tracked by the reactor" % sid, rp)
-            elif acks + produced == 0 and not leftover[sid]:
+            elif acks + produced == 0 and leftover[sid] is False:
                 ctx.violation("seed %s has nothing pending any more but was never reported back: %s" % (sid, row), rp)
         if a != b:
             ctx.disagree({"ops": [{"op": "start", "workers": 2}, json.loads(l)]}, a[:600], b[:600])
